@@ -593,6 +593,23 @@ func tagPrograms() []*Program {
 				{"strict", O("x", E(sv("a")), "y", E(sv("b")), "z", E(sv("c")))},
 				{"lenient", O("x", Opt{true, sv("a")}, "z", OneOf{Disc: "k", Opts: []Field{{"ok", E("$.steps.c.outputs.success")}, {"bad", E("$.steps.c.outputs.error")}}})},
 			}},
+		// alternatives that are independent steps: several may be produced before the value is built
+		// (the consumer also waits for c, which the vectors make slow)
+		{Name: "oneofsteps", Steps: []Step{pstep("a", O("v", E("$.input.n"))), pstep("b", O("v", I(4))), pstep("c", O("v", I(7)))},
+			Outputs: []Output{{"success", O("pick", OneOf{Disc: "which", Opts: []Field{
+				{"ia", E("$.steps.a.outputs.success")}, {"ib", E("$.steps.b.outputs.success")}}}, "c", E(sv("c")))}}},
+		{Name: "oneofsteps3", Steps: []Step{pstep("a", O("v", E("$.input.n"))), pstep("b", O("v", I(4))), pstep("d", O("v", I(9))), pstep("c", O("v", I(7)))},
+			Outputs: []Output{{"success", O("m", O("l", List{[]Node{OneOf{Disc: "which", Opts: []Field{
+				{"ia", E("$.steps.a.outputs.success")}, {"ib", E("$.steps.b.outputs.success")}, {"id", E("$.steps.d.outputs.success")}}}}}), "c", E(sv("c")))}}},
+		// a one-of alternative that is an object of the data model itself (stage-level reference, workflow
+		// input object) and a second, plain reference to the same object
+		{Name: "oneofstage", Steps: []Step{pstep("a", O("v", E("$.input.n"))), pstep("b", O("v", I(4)))},
+			Outputs: []Output{{"success", O("t", OneOf{Disc: "kind", Opts: []Field{
+				{"st", E("$.steps.a.outputs")}, {"cr", E("$.steps.a.crashed")}}}, "plain", E("$.steps.a.outputs"), "b", E(sv("b")))}}},
+		{Name: "oneofinput", Steps: []Step{
+			{ID: "a", Input: O("v", I(1)), WaitFor: OneOf{Disc: "kind", Opts: []Field{{"in", E("$.input")}, {"b", E("$.steps.b.outputs.success")}}}},
+			pstep("b", O("v", E("$.input.n")))},
+			Outputs: []Output{{"success", O("r", E(sv("a")), "q", E(sv("b")), "i", E("$.input.n"))}}},
 		// the enable condition of a comes from another step; consumers wait on a's disabled output
 		{Name: "enabledep", Steps: []Step{
 			pstep("p", O("v", E("$.input.n"))),
